@@ -1,6 +1,7 @@
 #!/usr/bin/env python3-vt
-"""Development tool: runs harnesses one per slot and records wall time, verdict and peak RSS of CBMC (polled).
-usage: calibrate.py <slots> <timeout_s> <prefix,prefix,...> [single|full]"""
+"""Development tool: runs a set of harnesses in ONE cargo-kani invocation (-j jobs) and records verdict, CBMC time and
+peak RSS (polled) per harness in .work/calibration.jsonl.
+usage: calibrate.py <jobs> <timeout_s> <prefix,prefix,...> [single|full]"""
 import json
 import os
 import subprocess
@@ -11,55 +12,41 @@ import time
 sys.path.insert(0, os.path.dirname(os.path.abspath(__file__)))
 import kani_run
 
-slots = int(sys.argv[1])
+jobs = int(sys.argv[1])
 timeout = int(sys.argv[2])
 names = kani_run.select(sys.argv[3].split(","))
 single = (len(sys.argv) < 5 or sys.argv[4] == "single")
 out_path = os.path.join(kani_run.WORK, "calibration.jsonl")
-lock = threading.Lock()
-queue = list(names)
 peak = {}
+stop = False
 
 
 def poll():
-    while True:
+    while not stop:
         try:
             ps = subprocess.run(["ps", "-eo", "rss,args"], capture_output=True, text=True).stdout
             for line in ps.splitlines():
-                if " cbmc " in line or line.strip().split(" ", 1)[-1].startswith("cbmc"):
-                    parts = line.split()
+                parts = line.split(None, 2)
+                if len(parts) >= 2 and parts[1].endswith("cbmc"):
                     rss = int(parts[0])
                     for n in names:
-                        short = n.split("::")[-1]
-                        if short + ".out" in line:
+                        if n.split("::")[-1] + ".out" in line:
                             peak[n] = max(peak.get(n, 0), rss)
         except Exception:
             pass
-        time.sleep(5)
+        time.sleep(3)
 
 
 threading.Thread(target=poll, daemon=True).start()
-
-
-def worker(slot):
-    while True:
-        with lock:
-            if not queue:
-                return
-            n = queue.pop(0)
-        t0 = time.time()
-        out, wall, to, log = kani_run.run_kani([n], timeout, jobs=1, harness_timeout=timeout - 30, target="cal%d" % slot, single_query=single)
-        r = kani_run.parse(out, [n])[n]
-        rec = {"harness": n, "status": r.status, "wall_s": round(wall, 1), "cbmc_s": r.time_s, "peak_rss_gb": round(peak.get(n, 0) / 1e6, 1),
-               "failed": r.failed[:3], "notes": r.notes[:3], "single": single}
-        with lock:
-            with open(out_path, "a") as f:
-                f.write(json.dumps(rec) + "\n")
-            print(json.dumps(rec), flush=True)
-
-
-ts = [threading.Thread(target=worker, args=(i,)) for i in range(slots)]
-for t in ts:
-    t.start()
-for t in ts:
-    t.join()
+print(len(names), "harnesses", flush=True)
+out, wall, to, log = kani_run.run_kani(names, timeout, jobs=jobs, harness_timeout=600, target="cal", single_query=single)
+stop = True
+res = kani_run.parse(out, names)
+with open(out_path, "a") as f:
+    for n in names:
+        r = res[n]
+        rec = {"harness": n, "status": r.status, "cbmc_s": r.time_s, "peak_rss_gb": round(peak.get(n, 0) / 1e6, 1),
+               "failed": r.failed[:3], "notes": r.notes[:3], "single": single, "jobs": jobs}
+        f.write(json.dumps(rec) + "\n")
+        print(json.dumps(rec), flush=True)
+print("wall", round(wall, 1), log)
